@@ -1599,7 +1599,12 @@ class VM:
             # Sort using Python's sort with custom key
             from functools import cmp_to_key
 
-            arr._elements.sort(key=cmp_to_key(compare_fn))
+            # Sort a copy and write it back to the original indices afterwards:
+            # a comparator that throws leaves the array untouched, and one that
+            # modifies the array cannot trip list.sort ("list modified during
+            # sort"); what it appended stays behind the sorted elements
+            length = len(arr._elements)
+            arr._elements[:length] = sorted(arr._elements, key=cmp_to_key(compare_fn))
             return arr
 
         methods = {
